@@ -3,6 +3,7 @@ CONSTANTS
   Alphabet = {1,2}
   MaxLen = 3
   BruteLen = 0
+  GapVals <- MCGapNeg
   FreeGaps = FALSE
 INIT Init
 NEXT Next
